@@ -68,3 +68,7 @@ CORPUS += [
         self._online = online
 """, "S"),
 ]
+# round 7 (C13.c): what is validated is what arrived
+CORPUS += [
+    M("frames-trimmed-to-length-byte", "msmart/base_device.py", "        return responses\n", "        return [r[:r[1] + 1] if len(r) > 1 else r for r in responses]\n"),
+]
